@@ -10,6 +10,7 @@ import (
 	"strconv"
 	"strings"
 	"sync"
+	"sync/atomic"
 	"time"
 
 	"github.com/redis/rueidis"
@@ -302,4 +303,30 @@ func parseFrame(b []byte) (Frame, int, bool) {
 		return f, pos, true
 	}
 	return Frame{}, 0, false
+}
+
+// Patience is the bound of the observers' waits for something that normally takes microseconds (a marker message
+// making the round, a Receive returning after Close …).  It starts generous so that a loaded machine never causes
+// a false alarm, and halves every time a wait actually expires: when the property is really broken (every case
+// hangs) a run still ends in reasonable time.
+var patience int64 = int64(6 * time.Second)
+
+func Patience() time.Duration { return time.Duration(atomic.LoadInt64(&patience)) }
+
+// Await is WaitFor with the adaptive bound.
+func Await(cond func() bool) bool {
+	if WaitFor(Patience(), cond) {
+		return true
+	}
+	for {
+		p := atomic.LoadInt64(&patience)
+		np := p / 2
+		if np < int64(400*time.Millisecond) {
+			np = int64(400 * time.Millisecond)
+		}
+		if atomic.CompareAndSwapInt64(&patience, p, np) {
+			break
+		}
+	}
+	return false
 }
